@@ -278,6 +278,20 @@ def one_case(ctx, index, want_model=True):
             return None
         s3 = pp.Sequence(sysr)
         s3.read(fn, remove_duplicates=False)
+        # second generation without duplicate removal on either side: write(rd=False) of what read(rd=False) gave, read again
+        s4 = None
+        if rng.random() < 0.5:
+            fn2 = os.path.join(d, 'b.seq')
+            s3b = pp.Sequence(sysr)
+            try:
+                s3b.read(fn, remove_duplicates=False)
+                s3b.write(fn2, create_signature=False, remove_duplicates=False, check_timing=False)
+                s4 = pp.Sequence(filegen.rand_system(rng, default_prob=0.3))
+                s4.read(fn2, remove_duplicates=rng.random() < 0.5)
+            except Exception as e:  # noqa: BLE001
+                ctx.fail('C01/second-generation-raises', case, {'exception': repr(e)[:300]})
+                return None
+            ctx.count('second_generation.no_dedup')
     n_arb = sum(1 for k in seq.grad_library.type.values() if k == 'g')
     ctx.evaluated(common.stable_hash(text), nontrivial=bool(n_arb or len(seq.rf_library.data)))
     ctx.count('graster_w.%g' % sysw.grad_raster_time)
@@ -308,6 +322,8 @@ def one_case(ctx, index, want_model=True):
     tr += sum(1 for v in seq.trigger_library.data.values() if any(int(x * 1e6) != round(x * 1e6) for x in v[2:]))
     ctx.count('timecols.truncation_differs_from_rounding', tr)
     ok = oracle(ctx, case, seq, s2, sysw)
+    if ok and s4 is not None:
+        ok = oracle(ctx, dict(case, generation=2), seq, s4, sysw)
     if index % 40 == 0:
         ctx.sample({'case': case, 'file_chars': len(text), 'oracle_ok': ok, 'head': text[:200]})
     if not (ok and want_model and ctx.model_available):
